@@ -130,13 +130,18 @@ def _uf_e(name):
     return f
 
 
-@harness("C09.mixed", cases=lambda tier: ["scalar", "array1", "array2"] + (["array3", "array4"] if tier == "thorough" else []),
+@harness("C09.mixed", cases=lambda tier: ["scalar", "array1", "array2", "int-array2"] + (["array3", "array4"] if tier == "thorough" else []),
          expect=lambda c: ["ice-branch", "water-branch", "between", "blend-formula-endpoints"]
-         + (["continuous-in-between"] if c == "array2" else []))
+         + (["continuous-in-between"] if c in ("array2", "int-array2") else []))
 def k_mixed(ctx):
     kind = ctx.case
     n = 1 if kind == "scalar" else int(kind[-1])
-    Ts = [ctx.real("T%d" % i, lo=0, lo_open=True) for i in range(n)]
+    integer = kind.startswith("int-")          # temperatures given as an integer-dtype array (whole kelvins)
+    if integer:
+        Tint = ctx.int_array("T", n, lo=1, hi=400)
+        Ts = list(Tint)
+    else:
+        Ts = [ctx.real("T%d" % i, lo=0, lo_open=True) for i in range(n)]
     Tt = constants.triple_point_water
     if ctx.sym:
         env = patched((A, "np", make_np()), (A, "e_eq_water_mk", _uf_e("e_water")),
@@ -149,7 +154,7 @@ def k_mixed(ctx):
         if kind == "scalar":
             res = [A.e_eq_mixed_mk(Ts[0])]
         else:
-            arr = symarray(Ts) if ctx.sym else np.array(Ts)
+            arr = Tint if integer else (symarray(Ts) if ctx.sym else np.array(Ts))
             res = list(A.e_eq_mixed_mk(arr))
         ctx.check("result-length", len(res) == n)
         if n == 2:
@@ -287,7 +292,7 @@ PLAN = {
                  "opts": {"query_timeout_ms": 120000}},
 }
 BOUNDS = {"quick": {"converters": "all x, q in [0,1), w >= 0, all positive molar masses (symbolic M_w, M_d)",
-                    "mixed phase": "scalar and arrays of length <= 2, every T > 0, arbitrary positive ice / liquid saturation functions",
+                    "mixed phase": "scalar and arrays of length <= 2 (real, and integer-dtype arrays of whole kelvins 1..400), every T > 0, arbitrary positive ice / liquid saturation functions",
                     "lapse rate": "100 <= T <= 400 K, any p > 0, any 0 <= e < p; constants as written in typhon.constants (exact decimal literals)"},
           "thorough": {"mixed phase": "arrays of length <= 4"}}
 OUTSIDE = ["monotonicity in T of the Murphy-Koop formulas, ice <= liquid below the triple point and their 1e-6 agreement at it",
